@@ -50,10 +50,10 @@ def interior_ok(ph):
 def known_palindromic(case, k):
     ph = [float.fromhex(x) for x in case.get("phases", [])]
     d = len(ph) - 1
-    return d >= 4 and d % 2 == 0 and all(abs(ph[i] - ph[d - i]) <= 1e-12 for i in range(d + 1))
+    return d >= 4 and all(abs(ph[i] - ph[d - i]) <= 1e-12 for i in range(d + 1))
 
 
-PREDICATES = {"c03_palindromic_even": known_palindromic}
+PREDICATES = {"c03_palindromic": known_palindromic}
 
 
 def run(ctx):
